@@ -181,6 +181,28 @@ func c06scenarios(probe string) []c06scn {
 		files := map[string]string{"x/v1/t.go": "package v1\n\ntype T struct{}\n", "y/v1/t.go": "package v1\n\ntype T struct{}\n", "use/use.go": src("use"), "use2/use.go": src("use2")}
 		out = append(out, c06scn{"one file per interface, imports and parameter names that collide across files", files, cfg})
 	}
+	{ // many interfaces per source file and per output file, several packages: the order of the mocks inside a file
+		// is the declaration order, whatever order the packages were loaded or visited in
+		cfg := testifyRoot()
+		cfg["all"] = true
+		cfg["formatter"] = "noop"
+		pkgs := core.M{}
+		files := map[string]string{}
+		for _, pn := range []string{"m1", "m2", "m3", "m4"} {
+			pkgs[P(pn)] = core.M{}
+			var names1, names2 []string
+			for k := 0; k < 9; k++ {
+				names1 = append(names1, fmt.Sprintf("%s%c", []string{"Zeta", "Alpha", "Mid"}[k%3], 'A'+k))
+			}
+			for k := 0; k < 6; k++ {
+				names2 = append(names2, fmt.Sprintf("Second%c", 'F'-k))
+			}
+			files[pn+"/a.go"] = goIface(pn, names1...)
+			files[pn+"/b.go"] = goIface(pn, names2...)
+		}
+		cfg["packages"] = pkgs
+		out = append(out, c06scn{"fifteen interfaces per package in two source files, four packages", files, cfg})
+	}
 	{ // every package profile of C08's composition oracle at once: both built-in templates and a custom one, all
 		// formatters, shared output package names, headers, schema settings, replace-type, recursion with exclusion
 		// lists, regex selection, same-named source packages, several output files per package
